@@ -45,7 +45,7 @@ func runC02(e *env) {
 	// a let/print pair or a special character inserted at a tag boundary).  Whatever still compiles is a template built
 	// from the property's constructs: wf_registry (the hypothesis of exec_impl_spec) must hold of its tree and the
 	// oracle applies unchanged.
-	c02Mutated(e, 500*e.scale)
+	c02Mutated(e, 700*e.scale)
 	var hs []string
 	for _, k := range hx.SortedKeys(e.res.Histogram) {
 		if strings.HasPrefix(k, "feat:") {
@@ -83,6 +83,16 @@ func c02Mutated(e *env, n int) {
 		files, entry, dataSets, feats := genBundle(e.rng, progOpts{depth: 3, directives: true, scope: true})
 		fi := e.rng.Intn(len(files))
 		txt := files[fi].Text
+		rec := false
+		for _, f := range files {
+			rec = rec || strings.Contains(f.Text, "{template .rec}")
+		}
+		if rec {
+			// the property quantifies over recursion bounded by a decreasing argument: a mutation of the recursive
+			// template (a param deleted, a let moved) can make it unbounded, which overflows the Go stack
+			e.res.Histogram["mutated:skipped-recursive-bundle"]++
+			continue
+		}
 		tags := c02TagRe.FindAllStringIndex(txt, -1)
 		if len(tags) < 3 {
 			continue
@@ -136,7 +146,7 @@ func c02BundleOpt(e *env, files []srcFile, entry string, dataSets []data.Map, fe
 	tofu := soyhtml.NewTofu(reg)
 	ids := newIDTable()
 	c02Reg++
-	key := fmt.Sprintf("reg%d", c02Reg)
+	key := "c02" // one key: loading a registry replaces the previous one (the model process keeps every key alive)
 	rs := registrySexp(reg, ids)
 	if r := e.m.Call("load_registry", key, rs); len(r) == 0 || r[0] != "#1" {
 		e.res.Fail(hx.Violation{Kind: "mismatch", What: "model cannot load the registry", Case: progCase{Files: files, Template: entry}, Observed: fmt.Sprint(r)}, "")
